@@ -141,6 +141,12 @@ class PyEngine:
         self.path = module_path
         self.tree = ast.parse(source)
         self.funcs = {n.name: n for n in ast.walk(self.tree) if isinstance(n, (ast.FunctionDef,))}
+        # methods are also addressable as Class.method (the plain name keeps the last definition of that name)
+        for c in ast.walk(self.tree):
+            if isinstance(c, ast.ClassDef):
+                for m in c.body:
+                    if isinstance(m, ast.FunctionDef):
+                        self.funcs[f'{c.name}.{m.name}'] = m
         self.contracts = contracts
         self.vcs: list[VC] = []
         self.fn = ''
@@ -561,8 +567,17 @@ class PyEngine:
         if isinstance(f, BuiltinV):
             return self.builtin(st, f.name, args, kwargs, n, stars)
         if isinstance(f, FuncV):
+            if stars:
+                if any(isinstance(a, ast.Starred) for a in n.args[:-len(stars)]) or not isinstance(n.args[-1], ast.Starred):
+                    raise Unsupported('starred argument that is not last')
+                n._ocv_stars = tuple(stars)
+            elif hasattr(n, '_ocv_stars'):
+                del n._ocv_stars
             return self.call_function(st, f, args, kwargs, n)
         raise Unsupported(f'call of {f!r} at L{line} in {self.fn}')
+
+    def concat(self, a, b):
+        return SeqV(a.len + b.len, lambda i, a=a, b=b: self.ite(i < a.len, a.at(i), b.at(i - a.len)))
 
     def call_function(self, st, f: FuncV, args, kwargs, n):
         node = f.node
@@ -572,8 +587,28 @@ class PyEngine:
         params = [x.arg for x in a.posonlyargs + a.args]
         for p, v in zip(params, args):
             st.env.vars[p] = v
+        if a.vararg is not None:
+            extra = list(args[len(params):])
+            seq = SeqV(z3.IntVal(len(extra)), self._const_seq(extra))
+            for star in getattr(n, '_ocv_stars', ()):
+                seq = self.concat(seq, self.to_seq(st, star))
+            st.env.vars[a.vararg.arg] = seq
+        elif len(args) > len(params):
+            raise Unsupported(f'too many positional arguments for {f.name}')
         for k, v in kwargs.items():
             st.env.vars[k] = v
+        # defaults of parameters that were not passed
+        defaults = dict(zip(reversed(params), reversed(a.defaults)))
+        for kw, d in zip(a.kwonlyargs, a.kw_defaults):
+            if d is not None:
+                defaults[kw.arg] = d
+        for pn, d in defaults.items():
+            if pn not in st.env.vars:
+                if isinstance(d, ast.Constant):
+                    (s_, dv), = self.e_Constant(d, st)
+                    st.env.vars[pn] = dv
+                else:
+                    raise Unsupported(f'non-constant default of {pn}')
         outs = []
         if isinstance(node, ast.Lambda):
             for s2, v in self.ev(node.body, st):
@@ -700,10 +735,21 @@ class PyEngine:
 
     def ex_block(self, stmts, st):
         cur, done = [st], []
-        for stmt in stmts:
+        for k, stmt in enumerate(stmts):
             nxt = []
             for s in cur:
                 for s2, o in self.ex(stmt, s):
+                    if o is not NORMAL and o[0] == 'yield-in-try':
+                        # generator suspended inside this statement: what follows it in this block runs after a resumption
+                        # that leaves the statement normally
+                        rest, inner = stmts[k + 1:], o[1]
+
+                        def resume(s3, kind, rest=rest, inner=inner):
+                            outs = []
+                            for s4, o4 in inner(s3, kind):
+                                outs += self.ex_block(rest, s4) if o4 is NORMAL else [(s4, o4)]
+                            return outs
+                        o = ('yield-in-try', resume)
                     (nxt if o is NORMAL else done).append(s2 if o is NORMAL else (s2, o))
             cur = nxt
             if not cur:
@@ -714,7 +760,7 @@ class PyEngine:
         if isinstance(n.value, ast.Constant):
             return [(st, NORMAL)]          # docstring
         if isinstance(n.value, ast.Yield):
-            return [(st, ('yield', None))]
+            return [(st, ('yield', None, n))]
         return [(s, NORMAL) for s, _ in self.ev(n.value, st)]
 
     def s_Pass(self, n, st):
@@ -762,7 +808,7 @@ class PyEngine:
         return [(s, ('return', v)) for s, v in self.ev(n.value, st)]
 
     def s_Raise(self, n, st):
-        cls = 'Exception'
+        cls = st.ghost.get('active_exc', 'Exception')       # bare `raise` inside a handler re-raises the active exception
         if n.exc is not None:
             e = n.exc
             f = e.func if isinstance(e, ast.Call) else e
@@ -819,8 +865,6 @@ class PyEngine:
         return outs
 
     def s_Try(self, n, st):
-        if n.handlers or n.orelse:
-            return self.try_except(n, st)
         saved_exc = self.exc
         self.exc = []
         res = self.ex_block(n.body, st)
@@ -828,22 +872,88 @@ class PyEngine:
         self.exc = saved_exc
         outs = []
         for s, o in res:
-            if o[0] == 'yield':
-                # generator suspended inside try/finally (context manager): the contract decides what the with-body does
-                outs.append((s, ('yield-in-try', n.finalbody)))
+            if o is not NORMAL and o[0] == 'yield':
+                # generator suspended at a `yield` that ends the try body (context manager): the contract decides what the
+                # with-body does; resume(state, kind) runs what the generator does when it is resumed normally
+                # (kind 'normal') or by an exception thrown into it (kind = its class: 'Exception' stands for any subclass
+                # of Exception, 'BaseException' for one that is not - KeyboardInterrupt, GeneratorExit, SystemExit)
+                if n.body[-1] is not o[2]:
+                    raise Unsupported('yield that is not the last statement of a try body')
+                outs.append((s, ('yield-in-try', lambda s3, kind, n=n: self.try_exit(n, s3, kind))))
                 continue
-            for s2, o2 in self.ex_block(n.finalbody, s):
-                outs.append((s2, o if o2 is NORMAL else o2))
+            if o is not NORMAL and o[0] == 'yield-in-try':
+                raise Unsupported('nested try around a suspended generator')
+            if o is NORMAL and n.orelse:
+                for s2, o2 in self.ex_block(n.orelse, s):
+                    outs += self.try_finally(n, s2, o2)
+                continue
+            outs += self.try_finally(n, s, o)
         for s, o in thrown:
-            for s2, o2 in self.ex_block(n.finalbody, s):
-                if o2 is NORMAL:
-                    self.exc.append((s2, o))
+            for s2, o2 in self.try_exit(n, s, o[1], thrown=o):
+                if o2 is not NORMAL and o2[0] == 'raise':
+                    self.exc.append((s2, o2))
                 else:
                     outs.append((s2, o2))
         return outs
 
-    def try_except(self, n, st):
-        raise Unsupported('try/except')
+    def try_finally(self, n, s, o):
+        outs = []
+        for s2, o2 in self.ex_block(n.finalbody, s):
+            if o2 is not NORMAL and o2[0] == 'raise':
+                self.exc.append((s2, o2))
+            else:
+                outs.append((s2, o if o2 is NORMAL else o2))
+        return outs
+
+    EXC_TREE = {'Exception': ('Exception', 'BaseException'), 'BaseException': ('BaseException',)}
+
+    def handler_matches(self, h, cls):
+        if h.type is None:
+            return True
+        names = [t.id for t in (h.type.elts if isinstance(h.type, ast.Tuple) else [h.type]) if isinstance(t, ast.Name)]
+        if len(names) != (len(h.type.elts) if isinstance(h.type, ast.Tuple) else 1):
+            raise Unsupported('except clause with a computed class')
+        bases = self.EXC_TREE.get(cls, (cls, 'Exception', 'BaseException'))
+        return any(nm in bases for nm in names)
+
+    def try_exit(self, n, s, kind, thrown=None):
+        """Leave the try statement `n` from its body: normally, or with an exception of class `kind`."""
+        if kind == 'normal':
+            outs = []
+            for s2, o2 in (self.ex_block(n.orelse, s) if n.orelse else [(s, NORMAL)]):
+                outs += self.leave_try(n, s2, o2)
+            return outs
+        raised = thrown if thrown is not None else ('raise', kind, 'thrown into the generator', getattr(n, 'lineno', 0))
+        for h in n.handlers:
+            if self.handler_matches(h, kind):
+                saved_exc = self.exc
+                self.exc = []
+                prev = s.ghost.get('active_exc')
+                s.ghost['active_exc'] = kind
+                res = self.ex_block(h.body, s)
+                rethrown = self.exc
+                self.exc = saved_exc
+                outs = []
+                for s2, o2 in res:
+                    s2.ghost['active_exc'] = prev
+                    outs += self.leave_try(n, s2, o2)
+                for s2, o2 in rethrown:
+                    s2.ghost['active_exc'] = prev
+                    outs += self.leave_try(n, s2, o2)
+                return outs
+        return self.leave_try(n, s, raised)
+
+    def leave_try(self, n, s, o):
+        outs = []
+        saved_exc = self.exc
+        self.exc = []
+        res = self.ex_block(n.finalbody, s)
+        thrown = self.exc
+        self.exc = saved_exc
+        for s2, o2 in res:
+            outs.append((s2, o if o2 is NORMAL else o2))
+        outs += thrown
+        return outs
 
     def s_FunctionDef(self, n, st):
         st.env.vars[n.name] = FuncV(n, st.env, n.name)
